@@ -191,7 +191,7 @@ fn run_case(case: &Case) -> Outcome {
         );
         if api != (qps, conc, avg_rt, min_rt as f64, best_rate) {
             out.violation = Some((
-                "harness/observed-values-disagree".into(),
+                "metric/node-reports-other-values-than-the-traffic-produced".into(),
                 format!("round {round}: node reports (qps, conc, avg_rt, min_rt, best_rate) = {api:?}, harness ledger says {:?}", (qps, conc, avg_rt, min_rt, best_rate)),
             ));
             break;
